@@ -5,7 +5,7 @@ import os
 import shutil
 import tempfile
 
-from mc import core, pelgen, impl, clidrv
+from mc import subchunk, core, pelgen, impl, clidrv
 from mc.core import ChunkResult
 
 PROPERTY = 'C11'
@@ -67,6 +67,8 @@ def plan(tier, seed):
     ch = [{'k': 'bfs', 'mask': m, 'depth': 2 if tier == 'quick' else 3} for m in range(256)]
     ch += [{'k': 'bfs', 'mask': m, 'link': True, 'depth': 2 if tier == 'quick' else 3} for m in LINK_MASKS]
     ch.append({'k': 'subproc'})
+    # the same under python -O (assertions stripped, __debug__ false)
+    ch += [dict(c, optimize=True) for c in [{'k': 'bfs', 'mask': 255, 'depth': 2}, {'k': 'bfs', 'mask': 0, 'depth': 2}, {'k': 'bfs', 'mask': LINK_MASKS[0], 'link': True, 'depth': 2}]]
     return ch
 
 
@@ -222,6 +224,9 @@ def eval_case(case):
 
 
 def run_chunk(chunk):
+    routed = subchunk.route(__name__, chunk)
+    if routed is not None:
+        return routed
     res = ChunkResult()
     impl.ensure(False)
     if chunk['k'] == 'subproc':
